@@ -20,8 +20,8 @@ from common import *   # noqa
 ID = 'C16'
 NAMESPACE = 'VL.C16'
 LEAN_MODULES = ['VotelibProofs.Props.C16']
-GEN_MODULES = ['Quota']
-REQUIRED = ['abs_threshold_exact', 'abs_threshold_order', 'rel_threshold_exact', 'rel_threshold_exact_pos',
+GEN_MODULES = ['Quota', 'Threshold']
+REQUIRED = ['abs_condition_exact', 'rel_condition_exact', 'abs_threshold_exact', 'abs_threshold_order', 'rel_threshold_exact', 'rel_threshold_exact_pos',
             'share_boundary', 'rel_threshold_zero_total', 'alternative_combine_mem', 'alternative_combine_nodup',
             'alternative_combine_sorted', 'alternative_is_union', 'alternative_error_iff', 'coalition_dispatch',
             'coalition_error_iff', 'property_dispatch',
